@@ -370,6 +370,38 @@ fn build_values(maxn: usize) -> Vec<Vec<Value>> {
     memo
 }
 
+/// structural equality, written out here (the round-trip clause says "an equal value": `==` on Value must mean this)
+fn same_value(a: &Value, b: &Value) -> bool {
+    match (a, b) {
+        (Value::Null, Value::Null) => true,
+        (Value::Bool(x), Value::Bool(y)) => x == y,
+        (Value::Number(x), Value::Number(y)) => x == y,
+        (Value::String(x), Value::String(y)) => x == y,
+        (Value::Array(x), Value::Array(y)) => x.len() == y.len() && x.iter().zip(y).all(|(p, q)| same_value(p, q)),
+        (Value::Object(x), Value::Object(y)) => x.len() == y.len() && x.iter().zip(y).all(|(p, q)| p.0 == q.0 && same_value(&p.1, &q.1)),
+        _ => false,
+    }
+}
+
+/// `==` on Value for every pair of values with <= 2 nodes
+fn equality(st: &mut Stats) {
+    let memo = build_values(2);
+    let all: Vec<&Value> = memo.iter().flatten().collect();
+    let mut s = Stats::default();
+    for a in &all {
+        for b in &all {
+            s.evaluations += 1;
+            s.states += 1;
+            s.transitions += 1;
+            if (*a == *b) != same_value(a, b) {
+                s.violation("Value equality is not structural equality", || json!({"a": format!("{:?}", a), "b": format!("{:?}", b), "eq": *a == *b}));
+            }
+        }
+    }
+    s.outcome("equality");
+    st.merge(s);
+}
+
 fn roundtrip(st: &mut Stats, maxn: usize) {
     let memo = build_values(maxn);
     let all: Vec<&Value> = memo.iter().flatten().collect();
@@ -445,6 +477,7 @@ pub fn run(mut cx: Ctx) -> ! {
     escapes(&mut st);
     nesting(&mut st);
     seeds_ws_and_mutants(&mut st);
+    equality(&mut st);
     roundtrip(&mut st, nval);
     cx.stats.merge(st);
     cx.finish()
